@@ -333,6 +333,8 @@ def gen_spec(rng, fmt, tabs, cls_hint=None):
         norbb = min(nbasis, nocc_b + (rng.randint(0, 3) if virt else 0))
         if rng.random() < 0.5:
             norbb = max(nocc_b, min(norbb, norba))  # same count is the common case
+        if rng.random() < 0.07:
+            nocc_b = norbb = 0  # no beta orbitals at all (one-electron systems, fully polarised sets without virtuals)
         occs = [1.0] * nocc_a + [0.0] * (norba - nocc_a) + [1.0] * nocc_b + [0.0] * (norbb - nocc_b)
         if nocc_a > nocc_b and norbb > nocc_b and rng.random() < 0.25:
             # a fractional beta occupation between the beta and the alpha electron count (smeared / fractional-electron
@@ -343,7 +345,7 @@ def gen_spec(rng, fmt, tabs, cls_hint=None):
         ea = sorted(round(rng.uniform(-3, 2), 6) for _ in range(norba))
         eb = sorted(round(rng.uniform(-3, 2), 6) for _ in range(norbb))
         # first beta energy below the last alpha energy (what the WFN reader's heuristic documents)
-        eb = [e - (eb[0] - ea[-1]) - 0.25 for e in eb] if eb[0] >= ea[-1] else eb
+        eb = [e - (eb[0] - ea[-1]) - 0.25 for e in eb] if (eb and eb[0] >= ea[-1]) else eb
         energies = ea + [round(e, 6) for e in eb]
         aminusb = None
         mk = "unrestricted"
@@ -535,7 +537,12 @@ def compare_wf(src, dst, fmt, seed, offgrid=False, src_pred=None):
         spin_comparable = False
     if spin_comparable:
         k0 = "unrestricted" if expand else m0["kind"]
-        if k0 != m1["kind"]:
+        if k0 == "unrestricted" and nab0[1] == 0 and m1["kind"] == "restricted":
+            # no beta orbitals at all: a file that lists the alpha orbitals only reads back as restricted orbitals whose
+            # beta occupations are all zero — the same occupied spin orbitals (the empty beta set cannot be expressed)
+            if np.abs(m1["occsa"] - occ0).max() > TOL_OCC[fmt] + 1e-15 or np.abs(m1["occsb"]).max() > TOL_OCC[fmt]:
+                out.append(("spin", f"alpha-only orbitals {occ0.tolist()} -> occsa {m1['occsa'].tolist()} occsb {m1['occsb'].tolist()}"))
+        elif k0 != m1["kind"]:
             out.append(("spin", f"kind {m0['kind']} -> {m1['kind']}"))
         elif m1["kind"] == "unrestricted" and (m1["norba"], m1["norbb"]) != nab0:
             out.append(("spin", f"(norba, norbb) {nab0} -> {(m1['norba'], m1['norbb'])}"))
@@ -549,6 +556,8 @@ def compare_wf(src, dst, fmt, seed, offgrid=False, src_pred=None):
     if fmt == "fchk":
         for key, d0 in r0.items():
             if key not in r1:
+                if key == "scf" and dst.mo.kind == "restricted" and abs(float(dst.mo.occsa.sum() - dst.mo.occsb.sum())) > 1e-9:
+                    continue  # the FCHK loader discards the total SCF density of restricted open-shell files by design
                 out.append(("density-lost", key))
                 continue
             d1 = np.asarray(r1[key], float)
